@@ -96,24 +96,33 @@ def _tick(signum, frame):
 
 
 def _disarm():
+    """Idempotent; retried when a late tick lands inside it (otherwise the timer would stay armed)."""
     global _ARMED
-    _ARMED = False
-    signal.setitimer(signal.ITIMER_REAL, 0)
+    while True:
+        try:
+            _ARMED = False
+            signal.setitimer(signal.ITIMER_PROF, 0)
+            signal.setitimer(signal.ITIMER_REAL, 0)
+            return
+        except HardTimeout:
+            continue
 
 
 @contextlib.contextmanager
 def time_limit(seconds):
-    """Like core.time_limit, but the alarm keeps firing every 0.2 s until the block is left: a timeout that is
-    swallowed somewhere (bare except, __del__, generator cleanup) cannot turn an endless loop into a hung worker."""
+    """Raise HardTimeout after `seconds` of CPU time of this process (a loaded machine is not an endless loop), and
+    again after every further 0.5 s of CPU time until the block is left: a timeout that is swallowed somewhere (bare
+    except, __del__, generator cleanup) cannot turn an endless loop into a hung worker.  Wall-clock backstop at 40x."""
     global _ARMED
-    old = signal.signal(signal.SIGALRM, _tick)
-    _ARMED = True
-    signal.setitimer(signal.ITIMER_REAL, seconds, 0.2)
+    signal.signal(signal.SIGPROF, _tick)
+    signal.signal(signal.SIGALRM, _tick)
     try:
+        _ARMED = True
+        signal.setitimer(signal.ITIMER_PROF, seconds, 0.5)
+        signal.setitimer(signal.ITIMER_REAL, seconds * 40, 5.0)
         yield
     finally:
         _disarm()
-        signal.signal(signal.SIGALRM, old)
 
 
 def new_tex():
@@ -126,7 +135,7 @@ def new_tex():
     return tex
 
 
-def observe(src, limit=5.0):
+def observe(src, limit=20.0):
     """Process `src` as a fresh document with the ifthen package loaded.
     -> visible text without whitespace | 'raises:<Type>' | 'timeout'"""
     try:
@@ -145,7 +154,7 @@ def observe(src, limit=5.0):
 
 
 class Session(object):
-    """Consecutive conditionals of one document, observed one by one (thorough depth-4 part)."""
+    """Consecutive conditionals of one document, each observed on its own output fragment ("session" tree blocks)."""
     MAX_CASES = 4000
 
     def __init__(self):
@@ -160,7 +169,7 @@ class Session(object):
         self.depth = len(tex.ownerDocument.context.contexts)
         self.n = 0
 
-    def run(self, body, limit=5.0):
+    def run(self, body, limit=20.0):
         if self.tex is None or self.n >= self.MAX_CASES:
             self.start()
         self.n += 1
@@ -201,7 +210,7 @@ def totuple(x):
     return x
 
 
-def positional(t, counter=None):
+def positional(t):
     """Same tree with leaves renumbered 0..k-1 in spelling order; also returns the original leaf ids."""
     ids = []
 
@@ -317,10 +326,10 @@ def classify(case, obs):
 
 
 def limit_for(case):
-    return 1.5 if case['part'] == 'W' else 20.0
+    return 1.0 if case['part'] == 'W' else 20.0
 
 
-CONFIRM_LIMIT = 6.0
+CONFIRM_LIMIT = 4.0
 
 
 def observe_case(case, full_preamble=False):
@@ -479,8 +488,8 @@ def run_case(rep, case, session=None, nontrivial=True):
     return obs, v
 
 
-CUT = 6             # a block that already holds this many violation candidates stops (the run fails anyway)
-STOP_AFTER = 60     # ... and once this many were seen in the whole run the remaining blocks are skipped
+CUT = 4             # a block that already holds this many violation candidates stops (the run fails anyway)
+STOP_AFTER = 40     # ... and once this many were seen in the whole run the remaining blocks are skipped
 _STOP = None        # multiprocessing.Value shared through fork
 
 
